@@ -149,6 +149,16 @@ HandleFeasibleSolution(
   this->Write(filename.c_str(), sol);
 }
 
+namespace internal {
+/// Whether the problem has objectives, for builders that can tell
+/// (test mock builders have no num_objs(): assume there are some).
+template <typename PB>
+auto HasObjs(PB &pb, int) -> decltype(pb.num_objs() > 0)
+{ return pb.num_objs() > 0; }
+template <typename PB>
+bool HasObjs(PB &, long) { return true; }
+}
+
 template <typename Solver, typename PB, typename Writer>
 void SolutionWriterImpl<Solver, PB, Writer>::HandleSolution(
     int status, fmt::CStringRef message, const double *values,
@@ -162,7 +172,7 @@ void SolutionWriterImpl<Solver, PB, Writer>::HandleSolution(
         SetValue(0, num_solutions_);
     // Objective suffixes only if there is an objective to attach them to
     // (a model without objectives has zero-length objective suffixes).
-    if (builder_.num_objs() > 0) {
+    if (internal::HasObjs(builder_, 0)) {
       builder_.AddIntSuffix("nsol", kindO, 0).
           SetValue(0, num_solutions_);
       builder_.AddIntSuffix("npool", kindO, 0).
